@@ -22,12 +22,15 @@ META = {
     "what the reference evaluator computes from the AST, or both must raise the same exception class. Flat operator "
     "strings `a op b op c (op d)` cover every operator tuple with operand tuples selected so that different parse trees "
     "give different values, which decides relative precedence and associativity of every operator pair.",
-    "note": "Bounded: operator tuples of length <=3 (quick: 4 on a 9-operator subset; thorough: 4 on all 18); every operator "
-    "form with all atom tuples at depth 1; depth-2 (thorough also depth-3 operator-only) shapes are filled from a fixed "
-    "set of leaf vectors rather than all atom tuples; trees with more than two `**` are excluded and numeric literals in "
-    "`**` trees are <=3 so that no re-association can blow up. The reference evaluator trusts Python's operators on Python "
-    "values and markupsafe. Rules the docs are silent about are calibrated from the pinned tree (listed in assumptions). "
-    "compile_expression is not usable under enable_async (reported separately); the async value channel is `{{ rec(expr) }}`.",
+    "note": "Bounded: operator tuples of length <=3 over 18 operators (+ unary/not prefixed variants), length 4 over 9 operators "
+    "(thorough: all 18); every operator form (186) with all atom tuples at depth 1 (21 atoms; 8 for three-hole forms); "
+    "depth-2 shapes (thorough also depth-3 on a 7-operator sub-grammar) are filled from six fixed leaf vectors (two of them "
+    "mixing constants and variables) rather than from all atom tuples; trees with more than two `**` are excluded and "
+    "numeric literals in `**` trees are <=3 so that no re-association can blow up (per-case alarm as backstop, one retry). "
+    "quick rotates the four environments over the cases, thorough runs all four except on the largest shape spaces. The "
+    "reference evaluator trusts Python's operators on Python values and markupsafe. Rules the docs are silent about are "
+    "calibrated from the pinned tree (listed in assumptions). Under enable_async the value channel is `{{ rec(expr) }}` "
+    "driven without an event loop, plus a small compile_expression probe.",
     "design_ref": "DESIGN.md §4 C02, §3 E1/R-expr",
 }
 
@@ -379,7 +382,15 @@ def shape_shard(arg):
             continue
         has_pow = G.shape_pows(shape) > 0
         label = shape[0].name
-        for vi in (vec_ids if not rotate_vecs else G.MIXED_VECTORS + (vec_ids[i % len(vec_ids)],)):
+        if rotate_vecs == 2:
+            use = (G.MIXED_VECTORS[i % 2], vec_ids[i % len(vec_ids)])
+        elif rotate_vecs == 1:
+            use = (vec_ids[i % len(vec_ids)],)
+        elif rotate_vecs:
+            use = G.MIXED_VECTORS + (vec_ids[i % len(vec_ids)],)
+        else:
+            use = vec_ids
+        for vi in use:
             ast = G.fill(shape, G.LEAF_VECTORS[vi])
             if has_pow:
                 ast = G.clamp_for_pow(ast, 3 if sname.startswith("d2") else 2)
@@ -397,22 +408,32 @@ def ranges(n, size):
 
 # ------------------------------------------------------------------ async compile_expression
 
+ASYNC_CE_PROBES = [G.Bin("+", G.Int(1), G.Name("x")), G.Name("u"), G.Attr(G.Name("o"), "k"), G.Filter(G.Name("y"), "length"),
+                   G.Cond(G.Name("u"), G.Int(1), None), G.Call(G.Name("f"), (G.Name("x"),)), G.Bin("//", G.Int(1), G.Int(0))]
+
+
 def async_ce_shard(_):
+    """compile_expression under enable_async (the bulk of the async cases goes through `{{ rec(expr) }}`)."""
     p = core.Part()
     import jinja2
 
-    p.evals += 1
-    try:
-        v = jinja2.Environment(enable_async=True).compile_expression("1 + x")(x=2)
-        ok = v == 3
-        got = repr(v)
-    except Exception as e:  # noqa: BLE001
-        ok = False
-        got = type(e).__name__ + ": " + str(e)
-    if not ok:
-        p.violation("C02/async/compile_expression-unusable", {
-            "msg": "Environment(enable_async=True).compile_expression('1 + x')(x=2) -> " + got + " (expected 3)",
-            "script": "import jinja2\nprint(jinja2.Environment(enable_async=True).compile_expression('1 + x')(x=2))\n"})
+    for ast in ASYNC_CE_PROBES:
+        src = G.to_src(ast)
+        for di in range(G.N_DATA):
+            p.evals += 1
+            ref = G.reference(ast, G.make_data(di))
+            want = ("exc", ref[1]) if ref[0] == "exc" else ("ok", ref[1])
+            try:
+                with core.alarm(60):
+                    v = jinja2.Environment(enable_async=True).compile_expression(src, undefined_to_none=False)(**G.make_data(di))
+                got = ("ok", G.canon(v))
+            except Exception as e:  # noqa: BLE001
+                got = ("exc", type(e).__name__)
+            if got != want:
+                p.violation("C02/async/compile_expression-unusable", {
+                    "msg": f"Environment(enable_async=True).compile_expression({src!r})(**data{di}) -> {got!r}, reference {want!r}",
+                    "script": "import jinja2\nfrom vf import gen_expr as G\n"
+                              f"print(jinja2.Environment(enable_async=True).compile_expression({src!r})(**G.make_data({di})))\n"})
     return p
 
 
@@ -448,26 +469,35 @@ def run(ctx: core.Ctx):
         for f in FLAT_OPS:
             for g in FLAT_OPS:
                 shards.append((quick, 4, f, None, 2, False, g))
+    if os.environ.get("VERIF_SMOKE"):
+        shards = shards[::int(os.environ["VERIF_SMOKE"])]
     ctx.pmap(flat_dispatch, shards)
     _phase("flat")
     # (b) depth 1
-    ctx.pmap(depth1_shard, [(quick, i) for i in range(len(G.FORMS))])
+    d1 = [(quick, i) for i in range(len(G.FORMS))]
+    if os.environ.get("VERIF_SMOKE"):
+        d1 = d1[::int(os.environ["VERIF_SMOKE"])]
+    ctx.pmap(depth1_shard, d1)
     _phase("depth1")
     # (c) shapes: (space, leaf vectors, all four environments?, one vector per shape in rotation?, shard size)
     # rotation = the two mixed constant/variable vectors + one of the listed vectors per shape
     if quick:
         plan = [("d2-quick", (0, 1, 2, 3), False, True, 500), ("d2-ops", (0, 1, 4), True, False, 100)]
     else:
-        plan = [("d2-all-x-rep", (0, 1, 2, 3), False, True, 1000), ("d2-rep-x-all", (0, 1, 2, 3), False, True, 1000),
+        # rotate: True = both mixed vectors + one listed vector per shape; 2 = one mixed + one listed; 1 = one listed
+        plan = [("d2-all-x-rep", (0, 1, 2, 3), False, True, 1000), ("d2-rep-x-all", (0, 1, 2, 3), False, 2, 1000),
                 ("d2-quick", (0, 1, 2, 3), True, True, 300), ("d2-ops", (0, 1, 2, 3, 4, 5), True, False, 100),
-                ("d3-ops", (0, 4), False, False, 3000)]
+                ("d3-ops", (0, 4, 1, 5), False, 1, 3000)]
     shards = []
     bounds = {}
     for sname, vecs, all_envs, rotate, chunk in plan:
         n = space(sname).count()
-        bounds[sname] = {"shapes": n, "leaf_vectors": len(vecs), "two_mixed_vectors_plus_one_in_rotation_per_shape": rotate,
+        bounds[sname] = {"shapes": n, "leaf_vectors": len(vecs), "vectors_per_shape": {True: 3, 2: 2, 1: 1, False: len(vecs)}[rotate],
                          "all_four_environments": all_envs}
         shards += [(quick, sname, a, b, vecs, all_envs, rotate) for a, b in ranges(n, chunk)]
+    if os.environ.get("VERIF_SMOKE"):
+        shards = shards[::int(os.environ["VERIF_SMOKE"])]
+        ctx.cap_hit("VERIF_SMOKE: only every n-th shape shard was run")
     ctx.pmap(shape_shard, shards)
     _phase("shapes")
     ctx.cov["bounds"] = {
